@@ -49,6 +49,16 @@ Proof. vm_compute. reflexivity. Qed.
 Theorem repo_no_blocking_send_under_lock : no_blocking_send_under_lock funcs = true.
 Proof. vm_compute. reflexivity. Qed.
 
+(* a handler notifies the independent status reconciler only AFTER the state the reconciler's fetcher
+   reads is in place: per function of the notifying struct, calls inlined, the last callback comes
+   after the last write of the fetched fields, is not made conditional when that write is
+   unconditional, and a handler that writes them notifies at all (C20_notify_after_state;
+   Allocator.countersChangedCallback / poolToCounters, layer2Controller.onStatusChange /
+   Announce.ips; order only for bgpController.adsChangedCallback / activeAds, which is invoked per
+   changed service from a loop) *)
+Theorem repo_notify_after_state : notify_after_state nfuncs nentries notifiers = true.
+Proof. vm_compute. reflexivity. Qed.
+
 (* the status fetchers, which run outside the Listener mutex, touch only guarded fields of
    their receiver, and they are the functions the programs hand to the status reconcilers *)
 Theorem repo_fetchers_confined :
@@ -73,3 +83,4 @@ Print Assumptions repo_no_recursive_lock.
 Print Assumptions repo_declared_guards_inferred.
 Print Assumptions repo_fetchers_confined.
 Print Assumptions repo_no_blocking_send_under_lock.
+Print Assumptions repo_notify_after_state.
